@@ -378,6 +378,24 @@ macro_rules! groups {
             g.run("MontyForm.inv_vartime", || { let p = MontyParams::<N>::new(om); Option::<MontyForm<N>>::from(MontyForm::new(&x, p).inv_vartime()).map(|v| w(&v.retrieve())) });
             g.runb("BoxedMontyForm.invert", || { let p = BoxedMontyParams::new(obm.clone()); Option::<BoxedMontyForm>::from(BoxedMontyForm::new(bxx.clone(), p).invert()).map(|v| v.retrieve()) });
             g.emit(cx, "invmod", bits, &[("a", &xa), ("m", &mv)], &[("pexp", bits as i64)]);
+            // ---- inversion for a general modulus (zero, one, 2^k, s * 2^k, even, any) and degenerate values: inherent vs trait vs boxed
+            {
+                let gm = match it % 8 {
+                    0 => vec![0; N],
+                    1 => fit(vec![1], N),
+                    2 => fit(vpow2(cx.rng.below(bits)), N),
+                    3 => { let k = cx.rng.below(bits - 1) + 1; let s = nat_odd(&mut cx.rng, N); fit(vmask(&vshl(&s, k), bits), N) }
+                    4 => { let mut v = uniform(&mut cx.rng, N); v[0] &= !1; v }
+                    _ => nat(&mut cx.rng, N),
+                };
+                let ga = match (it / 8) % 5 { 0 => vec![0; N], 1 => fit(vec![1], N), 2 => vec![u64::MAX; N], 3 => nat_odd(&mut cx.rng, N), _ => nat(&mut cx.rng, N) };
+                let (ua, um, ba_, bm_) = (u::<N>(&ga), u::<N>(&gm), bx(&ga), bx(&gm));
+                let mut g = Grp::new();
+                g.run("uint.inv_mod", || oc(ua.inv_mod(&um)));
+                g.run("uint.InvMod", || o(InvMod::inv_mod(&ua, &um)));
+                g.runb("boxed.inv_mod", || ob(ba_.inv_mod(&bm_)));
+                g.emit(cx, "invmod", bits, &[("a", &ga), ("m", &gm)], &[("pexp", bits as i64)]);
+            }
             // ---- pow: ct constructor vs vartime constructor vs boxed
             let ev_ = nat(&mut cx.rng, N.min(2));
             let e = u::<N>(&ev_);
